@@ -654,7 +654,10 @@ func genCoreProgram(r *rng, nf int) string {
 			rs = " (" + strings.Join(rets, ", ") + ")"
 		}
 		g.line(0, "func %s(%s)%s {", name, strings.Join(ps, ", "), rs)
-		vars := append([]gvar{{"G", "int"}}, params...)
+		// the global G is read-only inside the generated functions (it is written in main only): Go leaves the order
+		// between reading a variable and a call that modifies it unspecified (`G + f(G)`, `G += f(G)`), so a program in
+		// which a callee writes what its caller's expression reads has no single expected output
+		vars := append([]gvar{{"G", "roint"}}, params...)
 		for _, p := range params {
 			g.line(1, "_ = %s", p.name)
 		}
